@@ -320,7 +320,7 @@ impl Property for C10 {
         vec![("hostile-input", 3), ("concurrent-admins", 1)]
     }
     fn budget(&self) -> (u64, u64) {
-        (30_000, 1_500_000)
+        (200_000, 4_000_000)
     }
     fn rule(&self) -> &'static str {
         "1-4 lines of <command word known to the parser, unknown word, empty> + 0-5 tokens from a hostile alphabet (empty, i32/u64/u128 boundaries and beyond, non-numeric where a number is expected, $$ keys, ';', '|', very long tokens, non-ASCII, addresses) plus optional random raw bytes (incl. invalid UTF-8), sent over TCP, WebSocket or HTTP, unauthenticated or as administrator, with or without a selected database, optionally each line pipelined 101-260 times without reading replies, optionally with a second administrator connection whose i-th line is sent at the same instant as the attacker's i-th line (handlers interleave at lock granularity; half of the seeds model std's writer-preferring RwLock); after every line a second client opens a fresh connection and performs a set/get round trip. Non-trivial: the line parsed to a known command. distinct = distinct (program, task-switch sequence)."
